@@ -30,6 +30,7 @@ import (
 	"github.com/hyperledger/aries-framework-go/pkg/didcomm/protocol/mediator"
 	"github.com/hyperledger/aries-framework-go/pkg/didcomm/protocol/messagepickup"
 	mdpresentproof "github.com/hyperledger/aries-framework-go/pkg/didcomm/protocol/middleware/presentproof"
+	"github.com/hyperledger/aries-framework-go/pkg/didcomm/protocol/outofband"
 	"github.com/hyperledger/aries-framework-go/pkg/didcomm/protocol/outofbandv2"
 	"github.com/hyperledger/aries-framework-go/pkg/didcomm/protocol/presentproof"
 	"github.com/hyperledger/aries-framework-go/pkg/didcomm/transport"
@@ -91,6 +92,8 @@ func peerDocKeys(id, ed58, x58, edDidKey string) string {
 }
 
 // realDoc is a DID document whose keys live in the target's KMS (so that the agent can pack for / as that DID).
+var realDocKeys = map[string]string{}
+
 func realDoc(ctx *context.Provider, id string) string {
 	_, edPub, err := ctx.KMS().CreateAndExportPubKeyBytes(kmsapi.ED25519Type)
 	must(err)
@@ -105,13 +108,16 @@ func realDoc(ctx *context.Provider, id string) string {
 	_ = json.Unmarshal(xPub, &xk)
 
 	dk, _ := fingerprint.CreateDIDKey(edPub)
+	realDocKeys[id] = dk
 
 	return peerDocKeys(id, base58.Encode(edPub), base58.Encode(xk.X), dk)
 }
 
 func templates() map[string][]string {
-	doc64 := base64.StdEncoding.EncodeToString([]byte(peerDoc(theirDID)))
-	att := `{"@id":"a1","mime-type":"application/json","data":{"base64":"` + doc64 + `"}}`
+	// the peer's DID and document are the item's own (a stored peer DID cannot be re-pointed to another document)
+	const newDID = "did:peer:1zQmbVerifPeer§"
+
+	att := `{"@id":"a1","mime-type":"application/json","data":{"json":` + peerDoc(newDID) + `}}`
 	thread := `"~thread":{"thid":"T§","pthid":"P§"}`
 	// connection protocols: the thread of a response / ack is the id of the request, which the agent itself chose when
 	// it was the invitee: "@THID@" is replaced in the worker by the thread of the connection record the item's
@@ -121,8 +127,8 @@ func templates() map[string][]string {
 
 	return map[string][]string{
 		"didexchange": {
-			`{"@type":"https://didcomm.org/didexchange/1.0/request","@id":"T§","label":"bob","did":"` + theirDID + `","did_doc~attach":` + att + `,"~thread":{"pthid":"P§"}}`,
-			`{"@type":"https://didcomm.org/didexchange/1.0/response","@id":"r2","did":"` + theirDID + `","did_doc~attach":` + att + `,` + cthread + `}`,
+			`{"@type":"https://didcomm.org/didexchange/1.0/request","@id":"T§","label":"bob","did":"` + newDID + `","did_doc~attach":` + att + `,"~thread":{"pthid":"P§"}}`,
+			`{"@type":"https://didcomm.org/didexchange/1.0/response","@id":"r2","did":"` + newDID + `","did_doc~attach":` + att + `,` + cthread + `}`,
 			`{"@type":"https://didcomm.org/didexchange/1.0/complete","@id":"r3",` + cthread + `}`,
 			`{"@type":"https://didcomm.org/didexchange/1.0/invitation","@id":"P§","label":"bob","recipientKeys":["did:key:z6MkpTHR8VNsBxYAAWHut2Geadd9jSwuBV8xRoAnwWsdvktH"],"serviceEndpoint":"http://127.0.0.1:1/","routingKeys":[]}`,
 			`{"@type":"https://didcomm.org/didexchange/1.0/ack","@id":"r4","status":"OK",` + cthread + `}`,
@@ -150,7 +156,7 @@ func templates() map[string][]string {
 			`{"@type":"https://didcomm.org/present-proof/2.0/presentation","@id":"p2","comment":"c","formats":[{"attach_id":"c1","format":"dif/presentation-exchange/submission@v1.0"}],"presentations~attach":[` + cred + `],` + thread + `}`,
 			`{"@type":"https://didcomm.org/present-proof/2.0/ack","@id":"p3","status":"OK",` + thread + `}`,
 			`{"@type":"https://didcomm.org/present-proof/2.0/problem-report","@id":"p4","description":{"code":"rejected","en":"no"},` + thread + `}`,
-			`{"type":"https://didcomm.org/present-proof/3.0/request-presentation","id":"T3§","body":{"goal_code":"g","will_confirm":true},"attachments":[{"id":"c1","media_type":"application/json","format":"dif/presentation-exchange/definitions@v1.0","data":{"json":{}}}]}`,
+			`{"type":"https://didcomm.org/present-proof/3.0/request-presentation","id":"T3§","from_prior":"eyJhbGciOiJFZERTQSIsImtpZCI6ImRpZDpleGFtcGxlOm9sZCNrZXktMSJ9.eyJpc3MiOiJkaWQ6ZXhhbXBsZTpvbGQiLCJzdWIiOiJkaWQ6ZXhhbXBsZTpuZXciLCJpYXQiOjE2MDAwMDAwMDB9.AAAA","body":{"goal_code":"g","will_confirm":true},"attachments":[{"id":"c1","media_type":"application/json","format":"dif/presentation-exchange/definitions@v1.0","data":{"json":{}}}]}`,
 		},
 		"introduce": {
 			`{"@type":"https://didcomm.org/introduce/1.0/request","@id":"T§","please_introduce_to":{"name":"carol","description":"d","expected":true,"img~attach":{"data":{"base64":"AAAA"}}},"nwise":false,"~timing":{"expires_time":"2030-01-01T00:00:00Z"}}`,
@@ -175,9 +181,9 @@ func templates() map[string][]string {
 			`{"@type":"https://didcomm.org/messagepickup/1.0/noop","@id":"m4","~timing":{}}`,
 		},
 		"outofband": {
-			`{"@type":"https://didcomm.org/out-of-band/1.0/invitation","@id":"T§","label":"bob","goal":"g","goal_code":"gc","services":[{"id":"s1","type":"did-communication","recipientKeys":["did:key:z6MkpTHR8VNsBxYAAWHut2Geadd9jSwuBV8xRoAnwWsdvktH"],"serviceEndpoint":"http://127.0.0.1:1/"},"` + theirDID + `"],"accept":["didcomm/aip2;env=rfc19"],"handshake_protocols":["https://didcomm.org/didexchange/1.0"],"requests~attach":[` + att + `]}`,
-			`{"@type":"https://didcomm.org/out-of-band/1.0/handshake-reuse","@id":"h1§","~thread":{"thid":"h1§","pthid":"T§"}}`,
-			`{"@type":"https://didcomm.org/out-of-band/1.0/handshake-reuse-accepted","@id":"h2","~thread":{"thid":"h1§","pthid":"T§"}}`,
+			`{"@type":"https://didcomm.org/out-of-band/1.0/invitation","@id":"P§","label":"bob","goal":"g","goal_code":"gc","services":[{"id":"s1","type":"did-communication","recipientKeys":["did:key:z6MkpTHR8VNsBxYAAWHut2Geadd9jSwuBV8xRoAnwWsdvktH"],"serviceEndpoint":"http://127.0.0.1:1/"},"` + theirDID + `"],"accept":["didcomm/aip2;env=rfc19"],"handshake_protocols":["https://didcomm.org/didexchange/1.0"],"request~attach":[` + att + `]}`,
+			`{"@type":"https://didcomm.org/out-of-band/1.0/handshake-reuse","@id":"h1§","~thread":{"thid":"h1§","pthid":"P§"}}`,
+			`{"@type":"https://didcomm.org/out-of-band/1.0/handshake-reuse-accepted","@id":"h2","~thread":{"thid":"h1§","pthid":"P§"}}`,
 			`{"type":"https://didcomm.org/out-of-band/2.0/invitation","id":"T2§","from":"` + theirDID + `","label":"bob","body":{"goal":"g","goal_code":"gc","accept":["didcomm/v2","didcomm/aip2;env=rfc19"]},"attachments":[{"id":"a","media_type":"application/json","data":{"json":{"type":"https://didcomm.org/present-proof/3.0/request-presentation","id":"x","body":{}}}}]}`,
 		},
 	}
@@ -231,14 +237,16 @@ func (nullTransport) AcceptRecipient([]string) bool { return true }
 func (nullTransport) Accept(string) bool            { return true }
 
 type target struct {
-	ctx     *context.Provider
-	svcs    []svc
-	lookup  *connection.Lookup
-	rec     *connection.Recorder
-	pool    *hostilePool
-	lastReq string // @id of the request the last application call sent
-	wsURL   string
-	nconn   int
+	ctx      *context.Provider
+	svcs     []svc
+	lookup   *connection.Lookup
+	rec      *connection.Recorder
+	pool     *hostilePool
+	lastReq  string // @id of the request the last application call sent
+	wsURL    string
+	nconn    int
+	myKey    string // did:key of this agent's DID document key
+	theirKey string
 }
 
 type svc interface {
@@ -273,7 +281,7 @@ func newTarget() *target {
 		if ev, ok := s.(service.Event); ok {
 			ch := make(chan service.DIDCommAction, 64)
 			if ev.RegisterActionEvent(ch) == nil {
-				go autoContinue(s.Name(), ch)
+				go autoContinue(s, ch)
 			}
 		}
 	}
@@ -291,6 +299,7 @@ func newTarget() *target {
 	must(err)
 
 	t.lookup = rec.Lookup
+	t.myKey, t.theirKey = realDocKeys[myDID], realDocKeys[theirDID]
 	t.rec = rec
 	t.pool = newHostilePool()
 
@@ -353,47 +362,98 @@ func freeAddr() string {
 }
 
 // autoContinue approves every action the way an application would (introduce: with a recipient).
-func autoContinue(name string, ch chan service.DIDCommAction) {
+func autoContinue(s svc, ch chan service.DIDCommAction) {
+	name := s.Name()
 	introduced := map[string]bool{}
+	n := 0
+
+	piid := func(a service.DIDCommAction) string {
+		if a.Properties == nil {
+			return ""
+		}
+
+		if p, ok := a.Properties.All()["piid"].(string); ok {
+			return p
+		}
+
+		return ""
+	}
 
 	for a := range ch {
+		n++
+		// every other action is continued through the service's ActionContinue (the client API: the action is
+		// reloaded from the store), the others through the event's Continue
+		viaAPI := n%2 == 0 && piid(a) != ""
+
 		switch {
-		case name == introduce.Introduce && a.Message.Type() == introduce.RequestMsgType:
-			// the application names the recipients for the first request of a thread and simply continues a
-			// repeated one (the service then works with what it stored for the thread)
-			thid, _ := a.Message.ThreadID() //nolint:errcheck
-			if introduced[thid] {
-				a.Continue(nil)
-				continue
+		case name == introduce.Introduce:
+			var opt introduce.Opt
+
+			if a.Message.Type() == introduce.RequestMsgType {
+				// the application names the recipients for the first request of a thread and simply continues a
+				// repeated one (the service then works with what it stored for the thread)
+				thid, _ := a.Message.ThreadID() //nolint:errcheck
+				if !introduced[thid] {
+					introduced[thid] = true
+					opt = introduce.WithRecipients(&introduce.To{Name: "carol"}, &introduce.Recipient{
+						To: &introduce.To{Name: "dave"}, MyDID: myDID, TheirDID: theirDID})
+				}
 			}
 
-			introduced[thid] = true
-
-			a.Continue(introduce.WithRecipients(&introduce.To{Name: "carol"}, &introduce.Recipient{
-				To: &introduce.To{Name: "dave"}, MyDID: myDID, TheirDID: theirDID}))
+			if is, ok := s.(*introduce.Service); ok && viaAPI {
+				_ = is.ActionContinue(piid(a), opt)
+			} else if opt != nil {
+				a.Continue(opt)
+			} else {
+				a.Continue(nil)
+			}
 		case name == issuecredential.Name:
+			var opt issuecredential.Opt
+
 			switch a.Message.Type() {
 			case issuecredential.ProposeCredentialMsgTypeV2, issuecredential.ProposeCredentialMsgTypeV3:
-				a.Continue(issuecredential.WithOfferCredential(&issuecredential.OfferCredentialParams{}))
+				opt = issuecredential.WithOfferCredential(&issuecredential.OfferCredentialParams{})
 			case issuecredential.RequestCredentialMsgTypeV2, issuecredential.RequestCredentialMsgTypeV3:
-				a.Continue(issuecredential.WithIssueCredential(&issuecredential.IssueCredentialParams{}))
-			default:
+				opt = issuecredential.WithIssueCredential(&issuecredential.IssueCredentialParams{})
+			}
+
+			if is, ok := s.(*issuecredential.Service); ok && viaAPI {
+				if opt != nil {
+					_ = is.ActionContinue(piid(a), opt)
+				} else {
+					_ = is.ActionContinue(piid(a))
+				}
+			} else if opt != nil {
+				a.Continue(opt)
+			} else {
 				a.Continue(nil)
 			}
 		case name == presentproof.Name:
+			var opt presentproof.Opt
+
 			switch a.Message.Type() {
 			case presentproof.ProposePresentationMsgTypeV2, presentproof.ProposePresentationMsgTypeV3:
-				a.Continue(presentproof.WithRequestPresentation(&presentproof.RequestPresentationParams{}))
+				opt = presentproof.WithRequestPresentation(&presentproof.RequestPresentationParams{})
 			case presentproof.RequestPresentationMsgTypeV2, presentproof.RequestPresentationMsgTypeV3:
 				// the holder answers with a credential and lets the middleware build the submission
 				var vcm map[string]interface{}
 
 				_ = json.Unmarshal([]byte(holderVC), &vcm)
 
-				a.Continue(presentproof.WithPresentation(&presentproof.PresentationParams{
+				opt = presentproof.WithPresentation(&presentproof.PresentationParams{
 					Attachments: []decorator.GenericAttachment{{ID: "hc1", MediaType: "application/ld+json",
-						Data: decorator.AttachmentData{JSON: vcm}}}}))
-			default:
+						Data: decorator.AttachmentData{JSON: vcm}}}})
+			}
+
+			if ps, ok := s.(*presentproof.Service); ok && viaAPI {
+				if opt != nil {
+					_ = ps.ActionContinue(piid(a), opt)
+				} else {
+					_ = ps.ActionContinue(piid(a))
+				}
+			} else if opt != nil {
+				a.Continue(opt)
+			} else {
 				a.Continue(nil)
 			}
 		default:
@@ -416,6 +476,51 @@ func (t *target) threadOf(inv, alt string) string {
 	}
 
 	return alt
+}
+
+type oobOpts struct{}
+
+func (oobOpts) MyLabel() string             { return "alice" }
+func (oobOpts) RouterConnections() []string { return nil }
+func (oobOpts) ReuseAnyConnection() bool    { return false }
+func (oobOpts) ReuseConnection() string     { return "" }
+
+// acceptOOB: what an application does with an out-of-band 1.0 invitation it received (the DID exchange that follows is
+// answered by the peer with the next message of the item).
+func (t *target) acceptOOB(raw []byte) {
+	inv := &outofband.Invitation{}
+	if json.Unmarshal(raw, inv) != nil {
+		return
+	}
+
+	s, err := t.ctx.Service(outofband.Name)
+	if err != nil {
+		return
+	}
+
+	if o, ok := s.(*outofband.Service); ok {
+		_, e := o.AcceptInvitation(inv, oobOpts{})
+		if e != nil && os.Getenv("C03_DEBUG") != "" {
+			fmt.Fprintf(os.Stderr, "c03-debug: oob AcceptInvitation: %v\n", e)
+		}
+	}
+}
+
+// wsPacked packs the message as the peer would (its keys, for this agent's keys) and writes the envelope on the agent's
+// websocket: the transport listener unpacks it, links the connection to the sender's keys when a return route is asked
+// for, and hands it to the inbound message handler - the whole inbound path.
+func (t *target) wsPacked(plain []byte) {
+	packed, err := t.ctx.Packager().PackMessage(&transport.Envelope{MediaTypeProfile: transport.MediaTypeRFC0019EncryptedEnvelope,
+		Message: plain, FromKey: []byte(t.theirKey), ToKeys: []string{t.myKey}})
+	if err != nil {
+		if os.Getenv("C03_DEBUG") != "" {
+			fmt.Fprintf(os.Stderr, "c03-debug: pack for ws: %v\n", err)
+		}
+
+		return
+	}
+
+	t.wsFrame(packed)
 }
 
 // acceptOOBv2: what an application does with an out-of-band 2.0 invitation it received.
@@ -487,6 +592,12 @@ func (t *target) apiCall(name string) {
 		go func() {
 			_ = med.Register(id, mediator.ClientOption(func(o *mediator.ClientOptions) { o.Timeout = 2 * time.Second }))
 		}()
+	case "mediator-unregister":
+		// unregister and register again while the peer's answers (grant, keylist responses) keep coming
+		go func() {
+			_ = med.Unregister("conn1")
+			_ = med.Register("conn1", mediator.ClientOption(func(o *mediator.ClientOptions) { o.Timeout = 2 * time.Second }))
+		}()
 	case "pickup-batch":
 		go func() { _, _ = mp.BatchPickup("conn1", 1) }()
 	case "pickup-status":
@@ -556,6 +667,11 @@ func (t *target) deliver(raw []byte, conn bool) {
 	dctx := service.EmptyDIDCommContext()
 	if conn {
 		dctx = service.NewDIDCommContext(myDID, theirDID, nil)
+
+		// what the inbound message handler does before the services see the message (DID rotation: from_prior)
+		if rot := t.ctx.DIDRotator(); rot != nil {
+			_ = rot.HandleInboundMessage(msg.Clone(), theirDID, myDID)
+		}
 	}
 
 	for _, s := range t.svcs {
@@ -684,6 +800,10 @@ func (t *target) dispatch(req workReq, raw []byte) {
 		t.deliver(bytes.ReplaceAll(raw, []byte("@REQID@"), []byte(t.lastReq)), true)
 	case req.Via == "ws-frame":
 		t.wsFrame(req.Raw)
+	case req.Via == "ws-packed":
+		t.wsPacked(raw)
+	case req.Via == "oob-accept":
+		t.acceptOOB(raw)
 	default:
 		t.deliver(raw, req.Conn)
 	}
@@ -812,6 +932,18 @@ func runBatch(items []protoItem, quiesce int) batchResult {
 				}
 
 				via := it.pc.Via
+
+				if via == "oob-accept" {
+					wait = 40
+
+					if k > 0 {
+						via = ""
+					}
+				}
+
+				if via == "ws-packed" {
+					wait = 3
+				}
 
 				if strings.HasPrefix(via, "api:") {
 					wait = 30 // the call (or the handler) works on the answer before the next one arrives
@@ -1008,7 +1140,8 @@ func (r *runner) protoItems() []protoItem {
 		proto string
 		idx   int
 		api   string
-	}{{"mediator", 3, "mediator-addkey"}, {"mediator", 2, "mediator-register"}, {"messagepickup", 3, "pickup-batch"},
+	}{{"mediator", 3, "mediator-addkey"}, {"mediator", 2, "mediator-register"}, {"mediator", 2, "mediator-unregister"},
+		{"messagepickup", 3, "pickup-batch"},
 		{"messagepickup", 2, "pickup-status"}, {"messagepickup", 4, "pickup-noop"}} {
 		tree, ok := explodeWire([]byte(tpls[v.proto][v.idx]))
 		if !ok {
@@ -1026,10 +1159,7 @@ func (r *runner) protoItems() []protoItem {
 				if r.tier != "thorough" {
 					// quick tier: the answers after the call's 10 s timeout only for the two calls that register a
 					// channel under the request id
-					replies = []string{"once", "twice"}
-					if v.api == "mediator-addkey" || v.api == "pickup-batch" {
-						replies = append(replies, "late-twice")
-					}
+					replies = []string{"once", "twice"} // answers after the call's 10 s timeout: thorough tier
 				}
 			} else if r.tier != "thorough" {
 				if (mi+int(r.seed))%3 != 0 && m.Name != "null" && m.Name != "arr-null" && m.Name != "str-x" {
@@ -1047,6 +1177,62 @@ func (r *runner) protoItems() []protoItem {
 
 				it.seq, it.lateFirst = replySeq(rp, wire, sw)
 
+				items = append(items, it)
+			}
+		}
+	}
+
+	// an out-of-band 1.0 invitation the application accepts, then the peer's DID Exchange response on the thread the
+	// agent opened: the invitation's attachments are dispatched once the exchange completes
+	if tree, ok := explodeWire([]byte(tpls["outofband"][0])); ok {
+		muts := append([]Mut{{Path: "", Name: "seed", Tree: tree}}, closure(tree)...)
+
+		for mi, m := range muts {
+			always := strings.HasPrefix(m.Name, "attach-") || m.Name == "null" || m.Name == "arr-null" || m.Name == "seed"
+			if r.tier != "thorough" && !always && (mi+int(r.seed))%4 != 0 {
+				continue
+			}
+
+			it := protoItem{pc: ProtoCase{Proto: "outofband", Index: 0, Path: m.Path, Mut: m.Name, Conn: true, Via: "oob-accept"},
+				uniq: fmt.Sprintf("-%d", len(items))}
+			it.seq = [][]byte{bytes.ReplaceAll(render(m.Tree), []byte("§"), []byte(it.uniq)),
+				bytes.ReplaceAll([]byte(tpls["didexchange"][1]), []byte("§"), []byte(it.uniq))}
+			items = append(items, it)
+		}
+	}
+
+	// messages packed by the peer and written on the agent's websocket with a return route asked for: transport
+	// listener (key linking reads the DID document attachment), inbound message handler, services
+	for _, proto := range protoOrder {
+		for idx, tpl := range tpls[proto] {
+			var obj map[string]interface{}
+			if json.Unmarshal([]byte(tpl), &obj) != nil {
+				continue
+			}
+
+			obj["~transport"] = map[string]interface{}{"return_route": "all"}
+
+			wb, _ := json.Marshal(obj) //nolint:errcheck
+
+			tree, ok := explodeWire(wb)
+			if !ok {
+				continue
+			}
+
+			muts := []Mut{{Path: "", Name: "seed", Tree: tree}}
+			if proto == "didexchange" || proto == "legacyconnection" || (proto == "presentproof" && idx == 5) {
+				muts = append(muts, closure(tree)...)
+			}
+
+			for mi, m := range muts {
+				always := strings.HasPrefix(m.Name, "attach-") || m.Name == "seed" || m.Name == "null"
+				if r.tier != "thorough" && !always && (mi+int(r.seed))%5 != 0 {
+					continue
+				}
+
+				it := protoItem{pc: ProtoCase{Proto: proto, Index: idx, Path: m.Path, Mut: m.Name, Conn: true, Via: "ws-packed"},
+					uniq: fmt.Sprintf("-%d", len(items))}
+				it.seq = [][]byte{bytes.ReplaceAll(render(m.Tree), []byte("§"), []byte(it.uniq))}
 				items = append(items, it)
 			}
 		}
@@ -1499,7 +1685,42 @@ func buildItem(pc ProtoCase) (protoItem, bool) {
 	it := protoItem{pc: pc, uniq: "-r"}
 	own := func(b []byte) []byte { return bytes.ReplaceAll(b, []byte("§"), []byte(it.uniq)) }
 
+	if pc.Via == "ws-packed" {
+		var obj map[string]interface{}
+		if json.Unmarshal([]byte(list[pc.Index]), &obj) != nil {
+			return protoItem{}, false
+		}
+
+		obj["~transport"] = map[string]interface{}{"return_route": "all"}
+
+		wb, _ := json.Marshal(obj) //nolint:errcheck
+
+		tree, ok = explodeWire(wb)
+		if !ok {
+			return protoItem{}, false
+		}
+
+		wire = nil
+
+		if pc.Mut == "seed" {
+			wire = render(tree)
+		} else {
+			for _, m := range closure(tree) {
+				if m.Path == pc.Path && m.Name == pc.Mut {
+					wire = render(m.Tree)
+					break
+				}
+			}
+		}
+
+		if wire == nil {
+			return protoItem{}, false
+		}
+	}
+
 	switch {
+	case pc.Via == "oob-accept":
+		it.seq = [][]byte{own(wire), own([]byte(templates()["didexchange"][1]))}
 	case strings.HasPrefix(pc.Via, "api:"):
 		it.seq, it.lateFirst = replySeq(pc.Reply, own(wire), own([]byte(list[pc.Index])))
 	case pc.Pre != "":
@@ -1552,11 +1773,23 @@ func (r *runner) coqProto(it protoItem, o Outcome) (out string) {
 		}
 	}()
 
+	obs := "ONoCrash"
+	if o.Class == "panic" {
+		obs = "OPanic"
+	} else if o.Class == "timeout" {
+		obs = "OTimeout"
+	}
+
+	// a raw frame on the websocket: the transport helper's quoted-base64 detection (E2)
+	if it.pc.Via == "ws-frame" && len(it.seq[0]) <= 96 { //nolint:gomnd
+		return mkCase("(I2t "+coqBytes(it.seq[0])+")", obs)
+	}
+
 	if it.pc.Via != "" {
 		return ""
 	}
 
-	obs := "ONoCrash"
+	obs = "ONoCrash"
 	if o.Class == "panic" {
 		obs = "OPanic"
 	} else if o.Class == "timeout" {
